@@ -51,6 +51,9 @@ Catalogue ==
     join    |-> Wf({"A","B","C"},
                    [A |-> {"s1"}, B |-> {"s2"}, C |-> {"a","b"}],
                    [A |-> {"a"},  B |-> {"b"}, C |-> {"c","c2"}], E({"A","B","C"})),
+    shortcut |-> Wf({"A","B","C"},      \* C reads a file of A directly and one of B, which is made from A's
+                   [A |-> {"s1"}, B |-> {"a"}, C |-> {"a","b"}],
+                   [A |-> {"a"},  B |-> {"b"}, C |-> {"c"}], E({"A","B","C"})),
     pair    |-> Wf({"A","B"},
                    [A |-> {"s1"}, B |-> {"a"}],
                    [A |-> {"a"},  B |-> {"b"}], E({"A","B"})) ]
